@@ -446,6 +446,10 @@ def o1_recovery_order(ctx):
                         if a.get("k") == "const" and "parse" in (a.get("fn") or "") and "u64" in " ".join(a.get("fn_args") or []):
                             good = True
         r.add(f, "ids are parsed as u64 before ordering", good, short_span(sf[0].span))
+    # which files are recovered depends on their name and type only — never on size or time
+    for x in sf:
+        for _, bb, t in calls_in([x], "std::fs::metadata", "std::path::Path::metadata", "std::fs::DirEntry::metadata", "std::fs::Metadata::len", "std::fs::Metadata::modified", "std::fs::Metadata::created", "std::fs::symlink_metadata"):
+            r.bad(f, "file selection by %s" % strip_generics(t["callee"]).split("::")[-1], where(x, bb), "a data file is left out of recovery because of its size or time stamp (an empty newest file is what every open leaves behind: skipping it makes the next open reuse its id)")
     rf = prog.family("storage::bitcask::rebuild_storage")
     rb = None
     for x in rf:
